@@ -46,10 +46,10 @@ def main() -> int:
         # 1. regenerate the translated slice from the working tree, build, audit
         obligations = None
         if not a.no_build:
-            changed, terr = kernels.regenerate()
+            changed, terr = kernels.regenerate(mod.AREAS)
             if terr:
                 broken.append(f"translator: {terr}")
-                kernels.restore_pinned()
+                kernels.restore_pinned(mod.AREAS)
             targets = []
             for ar in mod.AREAS:
                 targets += [f"Solvor.{ar}.Theorems", f"Solvor.{ar}.Drive"]
@@ -62,7 +62,7 @@ def main() -> int:
                 # the pinned slice so that the failing-input search can run
                 bad = [ln for ln in log.splitlines() if ln.startswith("error:") or "✖" in ln][:6]
                 broken.append("lake build fails with the slice regenerated from /repo: " + " | ".join(bad))
-                kernels.restore_pinned()
+                kernels.restore_pinned(mod.AREAS)
                 core._BUILD_CACHE.clear()
                 ok, log = core.lake_build(targets)
             if not ok:
